@@ -519,6 +519,10 @@ TrToolCrypt == IsEv("tool.crypt") /\ LET ev == T[l]  w == ev.what
   CASE w = "roundtrip" \/ (w \in {"fault_enc", "fault_dec"} /\ ~disturbed) ->
          \* R (and I: an interrupted call alone must not make the tool fail)
          Step(objs, <<0, 1, ev.size + CryptOverhead, 0, 1, 1>>, <<ev.exit_enc, ev.enc_exists, ev.enc_size, ev.exit_dec, ev.dec_exists, ev.same>>)
+    [] w = "wrongkeyfile" ->
+         \* two key files whose first lines differ: either the tool refuses the key file outright (nothing written),
+         \* or what one encrypted the other must not decrypt
+         Step(objs, <<TRUE>>, <<(ev.exit_enc # 0 /\ ev.enc_exists = 0) \/ (ev.exit_enc = 0 /\ ev.exit_dec # 0 /\ ev.dec_exists = 0)>>)
     [] w \in {"wrongpw", "flip", "trunc", "extend"} ->
          \* T: rejected with a non-zero exit status and no output file left behind
          Step(objs, <<0, TRUE, 0>>, <<ev.exit_enc, ev.exit_dec # 0, ev.dec_exists>>)
@@ -547,13 +551,16 @@ TrToolSumFault == IsEv("tool.sumfault") /\ LET ev == T[l] IN
 TrToolSumListFault == IsEv("tool.sumlistfault") /\ LET ev == T[l] IN
   IF ev.tripped = 1 THEN Step(objs, <<0, TRUE, 1>>, <<ev.gen_exit, ev.exit # 0, ev.stderr>>)
   ELSE Step(objs, <<0, 0, ev.nfiles>>, <<ev.gen_exit, ev.exit, ev.nok>>)
+\* many arguments: the exit status is zero exactly when none of them failed, whatever their number
+TrToolSumMany == IsEv("tool.summany") /\ LET ev == T[l] IN
+  Step(objs, <<ev.nfail = 0, IF ev.check = 1 THEN ev.nfail + 2 ELSE 2>>, <<ev.exit = 0, ev.good_lines>>)
 \* a failed write to standard output: lost digests or verdicts are not a success
 TrToolSumWriteFault == IsEv("tool.sumwritefault") /\ LET ev == T[l] IN
   IF ev.tripped = 1 THEN Step(objs, <<0, TRUE, 1>>, <<ev.gen_exit, ev.exit # 0, ev.stderr>>)
   ELSE Step(objs, <<0, 0, 1>>, <<ev.gen_exit, ev.exit, ev.complete>>)
 \* C12: any argument vector - no signal, no sanitizer report
 TrToolArgs == IsEv("tool.args") /\ LET ev == T[l] IN Step(objs, <<0, 0>>, <<ev.signaled, ev.sanitizer>>)
-ToolNext == TrToolCrypt \/ TrToolGenKey \/ TrToolSum \/ TrToolSumCheck \/ TrToolSumFault \/ TrToolSumListFault \/ TrToolSumWriteFault \/ TrToolArgs
+ToolNext == TrToolCrypt \/ TrToolGenKey \/ TrToolSum \/ TrToolSumCheck \/ TrToolSumFault \/ TrToolSumListFault \/ TrToolSumMany \/ TrToolSumWriteFault \/ TrToolArgs
 
 -----------------------------------------------------------------------------
 (* C18: assembly back ends.  asm.permute: one call of a permutation entry  *)
